@@ -34,6 +34,8 @@ pub mod c03;
 pub mod c04;
 #[cfg(any(feature = "p05"))]
 pub mod c05;
+#[cfg(any(feature = "p05"))]
+pub mod curve;
 #[cfg(any(feature = "p06" , feature = "p19"))]
 pub mod c06;
 #[cfg(feature = "p06")]
